@@ -1,5 +1,5 @@
 // @inject src/arena/pool.rs as verif_kani_rel
-// @append src/arena/mod.rs: pub(crate) use pool::verif_kani_rel as verif_poolset;
+// @append src/arena/mod.rs: #[cfg(not(debug_assertions))] pub(crate) use pool::verif_kani_rel as verif_poolset;
 // @needs bump.rs
 // Contracts for PoolSet (property C12; these postconditions are the contract stubs used by C02/C05 harnesses).
 // release-cfg: `Arena` is bump::Arena (in debug builds it is the debug wrapper enum, which CBMC cannot encode in time).
